@@ -108,6 +108,10 @@ def one_run(kernel="rw", schedule="S1", seed=7, seedform="int", chains=3, multi=
         if kernel == "rw":
             b.add_kernel(gs.RWKernel(["x"], initial_step_size=0.7))
             b.add_kernel(gs.RWKernel(["y"], initial_step_size=0.4))
+        elif kernel == "rwx":
+            # y is not sampled by any kernel (a quantity held fixed), but tracked - and jittered like any other position
+            b.add_kernel(gs.RWKernel(["x"], initial_step_size=0.7))
+            b.positions_included = ["y"]
         elif kernel == "tunerw":
             b.add_kernel(TuneErrRW(["x"], initial_step_size=0.7))
             b.add_kernel(gs.RWKernel(["y"], initial_step_size=0.4))
@@ -221,6 +225,10 @@ def table_jobs(quick=True):
     tabs.append([dict(base, multi=True, inits=(0.25, -1.0, 2.0)), dict(base, multi=True, inits=(0.25, -1.0, 2.0), double_init=True),
                  dict(base, multi=True, inits=(0.25, -1.0, 2.0), jitter=True),
                  dict(base, multi=True, inits=(0.25, -1.0, 2.0), jitter=True, double_init=True)])
+    # a jitter function for a position no kernel samples (tracked as an additional position)
+    base = dict(kernel="rwx", schedule="S1", seed=29, chains=3)
+    tabs.append([dict(base, inits=(0.25, 0.25, 0.25), jitter=True), dict(base, inits=(0.25, 0.25, 0.25), jitter=True),
+                 dict(base, multi=True, inits=(0.25, -1.0, 2.0), jitter=True), dict(base, multi=True, inits=(0.25, -1.0, 2.0))])
     # the same seeded run in other Python processes with different string-hash salts
     base = dict(kernel="rw", schedule="S1", seed=23, chains=2, jitter=True, inits=(0.25, 0.25))
     tabs.append([dict(base), dict(base, hashseed=1), dict(base, hashseed=2), dict(base, hashseed=5)])
